@@ -1222,8 +1222,8 @@ def assign(t, v, fr, node):
             for tt, vv in zip(t.elts, v.items):
                 assign(tt, vv, fr, node)
         elif isinstance(v, ShapeV):
-            for tt in t.elts:
-                assign(tt, Deg({()}, 0), fr, node)
+            for k, tt in enumerate(t.elts):
+                assign(tt, v.dims[k] if v.dims is not None and len(v.dims) == len(t.elts) else Deg({()}, 0), fr, node)
         else:
             e = elem(v)
             for tt in t.elts:
@@ -1579,6 +1579,11 @@ def subscript(base, idx, node):
         return r if r is not None else ANY
     if isinstance(base, ShapeV):
         if idx is SLICE or idx == SLICE:
+            sl = node.slice if isinstance(node, ast.Subscript) else None
+            if isinstance(sl, ast.Slice) and base.dims is not None and sl.step is None \
+                    and all(b is None or (isinstance(b, ast.Constant) and isinstance(b.value, int)) for b in (sl.lower, sl.upper)):
+                d = base.dims[(sl.lower.value if sl.lower else None):(sl.upper.value if sl.upper else None)]
+                return ShapeV(len(d), d)
             return base
         if base.dims is not None and isinstance(idx, Cst) and isinstance(idx.v, int) and -len(base.dims) <= idx.v < len(base.dims):
             return base.dims[idx.v]
